@@ -118,6 +118,16 @@ class C03(Check):
         streams = case['multi']
         if sum(1 for st in streams if any(x in progs.CONTEXTS for x in progs.op_names(st['prog']))) >= 1:
             out.nontrivial = True
+        for st in streams:
+            # a stream outside the stated domain (mean(reduce) of an empty key raises in the middle of a completion) leaves the shared
+            # store and the re-subscription below in a state no property describes: not judged
+            try:
+                model.run(st['prog'], st['items'])
+            except model.Discard as d:
+                out.discarded = 'a stream outside the domain: %s' % d
+                return out
+            except Exception:       # noqa: BLE001 - the model does not know every operator; the run itself decides
+                pass
         srcs = [progs.Controlled() for _ in streams]
         store = rs.state.StoreManager(store_factory=rs.state.MemoryStore)
         snaps = [Snap() for _ in streams]
